@@ -10,6 +10,7 @@ mod ops_io;
 mod ops_token;
 mod ops_float;
 mod ops_serde;
+mod ops_skip;
 
 #[global_allocator]
 static GLOBAL: ops_seq::Counting = ops_seq::Counting;
